@@ -211,6 +211,8 @@ def specs_for(tier):
          gridlab.tokamak_spec("cdn", options={"orthogonal": False}, extract=ex),
          gridlab.tokamak_spec("lsn", options={"orthogonal": False, "number_of_processors": 2}, wall=W2, extract=ex),
          gridlab.tokamak_spec("udn", extract=ex),
+         # a large-flux equilibrium (psi x 15): corrections in psi during refinement are large compared with the tolerances
+         gridlab.tokamak_spec("lsn", options={"orthogonal": False}, wall=W2, psi_sign=15.0, extract=ex),
          gridlab.circular_spec(extract=ex)]
     if tier == "thorough":
         for geo in ("usn", "cdn", "ldn", "udn2"):
@@ -233,7 +235,7 @@ def specs_for(tier):
 def tag(sp):
     keep = ("orthogonal", "number_of_processors", "psi_interpolation_method", "y_boundary_guards", "nonorthogonal_spacing_method", "refine_methods", "limiter")
     return "%s %s%s" % (sp.get("geometry", "circular"), {k: v for k, v in sp["options"].items() if k in keep and v is not True or k == "orthogonal" and v is False},
-                        " psi_sign=-1" if sp.get("psi_sign", 1.0) < 0 else "")
+                        (" psi x %g" % sp["psi_sign"]) if sp.get("psi_sign", 1.0) != 1.0 else "")
 
 
 def oracle(res, tier):
